@@ -240,12 +240,7 @@ func ruleC08R2(r *Run) {
 	var keys ssa.Value
 	if c, ok := p.resolve(got["actionKeys"]).(*ssa.Call); ok && p.calleeKey(c.Common()) == "SampledFrom" {
 		keys = p.resolve(c.Common().Args[0])
-		sorted := false
-		for _, s := range p.callsTo(rep, "sort.Strings") {
-			if p.resolve(s.Arg(0)) == keys && dominates(s.Instr, c) {
-				sorted = true
-			}
-		}
+		_, sorted := repeatKeysSorted(p, rep)
 		r.Check("(*T).Repeat#keys-sorted", c.Pos(), sorted, "keys are sorted before sampling (map iteration order erased)", "the action keys collected from the map are sampled without sort.Strings first: the chosen action depends on map iteration order, not only on the bitstream")
 	} else {
 		r.Fail("(*T).Repeat#sm.actionKeys", storePos, "stateMachine.actionKeys is not SampledFrom(keys): "+p.expr(got["actionKeys"]))
@@ -672,4 +667,30 @@ func earlyReturnOnNoKeys(p *Program, ret *ssa.Return) bool {
 		}
 	}
 	return false
+}
+
+// repeatKeysSorted: the slice handed to SampledFrom in Repeat (the action keys) is sorted by a dominating sort.Strings.
+func repeatKeysSorted(p *Program, rep *ssa.Function) (token.Pos, bool) {
+	pos := rep.Pos()
+	for _, c := range p.callsTo(rep, "SampledFrom") {
+		pos = c.Instr.Pos()
+		keys := p.resolve(c.Arg(0))
+		for _, s := range p.callsTo(rep, "sort.Strings", "slices.Sort", "sort.Sort", "sort.Stable") {
+			a := p.resolve(s.Arg(0))
+			// sort.Sort(sort.StringSlice(keys)): the natural total order of strings through the interface form
+			if mi, ok := a.(*ssa.MakeInterface); ok {
+				if p.typeStr(mi.X.Type()) != "sort.StringSlice" && p.typeStr(mi.X.Type()) != "StringSlice" {
+					continue
+				}
+				a = p.resolve(mi.X)
+				if ct, ok := a.(*ssa.ChangeType); ok {
+					a = p.resolve(ct.X)
+				}
+			}
+			if a == keys && dominates(s.Instr, c.Instr) {
+				return pos, true
+			}
+		}
+	}
+	return pos, false
 }
